@@ -112,7 +112,14 @@ fn history<S: ShortGroupSignatureScheme>(em: &mut Emitter, rng: &mut Rng, suite:
             if r < 35 || holders.len() < 2 {
                 // issue (plain or blind)
                 let blind = rng.chance(1, 3);
-                let id = format!("h{}-{}-{}", hist, next_id, rng.below(1 << 20));
+                // identifiers in mixed case; every fourth one is the case-exchanged twin of an earlier identifier
+                let id = if next_id % 4 == 3 && !holders.is_empty() {
+                    let src = holders[rng.below(holders.len() as u64) as usize].id.clone();
+                    let tw: String = src.chars().map(|c| if c.is_ascii_lowercase() { c.to_ascii_uppercase() } else { c.to_ascii_lowercase() }).collect();
+                    if holders.iter().any(|h| h.id == tw) { format!("Hx{}-{}-{}", hist, next_id, rng.below(1 << 20)) } else { tw }
+                } else {
+                    format!("{}{}-{}-{}", if next_id % 2 == 0 { "h" } else { "Holder" }, hist, next_id, rng.below(1 << 20))
+                };
                 next_id += 1;
                 match issue(&mut issuer, rng, &id, blind) {
                     Out::Ok(b) => {
